@@ -1,5 +1,7 @@
 import Driver.Util
 import Driver.BPE
+import Driver.OT
+import Driver.Counts
 import Driver.Vocab
 import Driver.Sparse
 import Driver.Heap
@@ -14,6 +16,8 @@ namespace Driver
 
 def handlers : List (String → Json → Option (R Json)) := [
   Driver.BPE.handle,
+  Driver.OT.handle,
+  Driver.Counts.handle,
   Driver.Vocab.handle,
   Driver.Sparse.handle,
   Driver.HeapD.handle,
